@@ -373,7 +373,8 @@ class Stream(object):
         '''
         chunked_match = re.match(
             r'chunked($|;)',
-            response.fields.get('Transfer-Encoding', '')
+            response.fields.get('Transfer-Encoding', ''),
+            re.IGNORECASE
         )
 
         if chunked_match:
